@@ -52,6 +52,30 @@ def _picklable_exception(e: BaseException) -> BaseException:
     return e
 
 
+def _keep_fasta_pairs_together(chunks: Iterator[memoryview]) -> Iterator[memoryview]:
+    """
+    Re-cut chunks of an interleaved FASTA file so that each of them holds an even
+    number of records.
+
+    dnaio.read_chunks() ensures this for FASTQ only; FASTA chunks end at an arbitrary
+    record boundary, which would separate the two reads of a pair.
+    """
+    leftover = b""
+    for chunk in chunks:
+        data = leftover + bytes(chunk)
+        n_records = data.count(b"\n>") + (1 if data.startswith(b">") else 0)
+        if n_records % 2 == 1:
+            # Move the last record to the next chunk
+            pos = data.rfind(b"\n>") + 1
+            data, leftover = data[:pos], data[pos:]
+        else:
+            leftover = b""
+        if data:
+            yield memoryview(data)
+    if leftover:
+        yield memoryview(leftover)
+
+
 class ReaderProcess(mpctx_Process):
     """
     Read chunks of FASTA or FASTQ data (single-end or paired) and send them to a worker.
@@ -73,6 +97,7 @@ class ReaderProcess(mpctx_Process):
         queue: multiprocessing.Queue,
         buffer_size: int,
         stdin_fd,
+        interleaved: bool = False,
     ):
         """
         Args:
@@ -100,6 +125,8 @@ class ReaderProcess(mpctx_Process):
         self.queue = queue
         self.buffer_size = buffer_size
         self.stdin_fd = stdin_fd
+        self._interleaved = interleaved
+        self._file_format: Optional[FileFormat] = None
 
     def run(self):
         if self.stdin_fd != -1:
@@ -113,6 +140,7 @@ class ReaderProcess(mpctx_Process):
                         for path in self._paths
                     ]
                     file_format = detect_file_format(files[0])
+                    self._file_format = file_format
                 except Exception as e:
                     self._file_format_connection.send(-2)
                     self._file_format_connection.send(
@@ -135,7 +163,10 @@ class ReaderProcess(mpctx_Process):
 
     def _read_chunks(self, *files) -> Iterator[Tuple[memoryview, ...]]:
         if len(files) == 1:
-            for chunk in dnaio.read_chunks(files[0], self.buffer_size):
+            chunks = dnaio.read_chunks(files[0], self.buffer_size)
+            if self._interleaved and self._file_format is FileFormat.FASTA:
+                chunks = _keep_fasta_pairs_together(chunks)
+            for chunk in chunks:
                 yield (chunk,)
         elif len(files) == 2:
             for chunks in dnaio.read_paired_chunks(
@@ -343,6 +374,7 @@ class ParallelPipelineRunner(PipelineRunner):
             queue=self._need_work_queue,
             buffer_size=self._buffer_size,
             stdin_fd=fileno,
+            interleaved=inpaths.interleaved,
         )
         self._reader_process.daemon = True
         self._reader_process.start()
